@@ -84,16 +84,24 @@ func runSelftest(which, repo, verif string) int {
 		}(i)
 	}
 	wg.Wait()
-	bad := 0
+	bad, limits := 0, 0
 	for i, r := range res {
 		mark := "ok  "
+		if r.Expect == "limit" && r.OK {
+			mark = "LIMIT"
+			limits++
+		}
 		if !r.OK {
 			mark = "FAIL"
 			bad++
 		}
 		fmt.Printf("%s %-10s %-4s expect=%-6s got=%-7s rules=%v want=%s %s\n", mark, r.ID, sel[i].Property, r.Expect, r.Outcome, r.Rules, sel[i].Rule, trunc(r.Detail, 300))
 	}
-	fmt.Printf("%d variants, %d failures\n", len(res), bad)
+	if limits > 0 {
+		fmt.Printf("%d variants, %d failures, %d documented false alarms (LIMIT: refactorings beyond the rules' idioms, see DESIGN.md 8.6)\n", len(res), bad, limits)
+	} else {
+		fmt.Printf("%d variants, %d failures\n", len(res), bad)
+	}
 	if bad > 0 {
 		return 1
 	}
